@@ -93,9 +93,10 @@ namespace RecInt
 
     // a = b^c mod n
     template <size_t K, typename T>
-    inline __RECINT_IS_UNSIGNED(T, void) exp_mod(ruint<K>& a, const ruint<K>& b, const T& c, const ruint<K>& n) {
+    inline __RECINT_IS_UNSIGNED(T, void) exp_mod(ruint<K>& a, const ruint<K>& b, const T& c, const ruint<K>& n0) {
         ruint<K+1> resmul;
         ruint<K> x(b);
+        const ruint<K> n(n0); // a may be the same object as n0
         T j;
 
         a = (n == 1u) ? 0u : 1u;
